@@ -305,20 +305,30 @@ Distinct(B) == [m \in DOMAIN B |-> 1]
 SubFull(X, q, view, active) ==
   LET B == SubRowsDefinite(X, q, view, active) IN B
 
-\* choose the first n rows of the bag under the order: definite iff every kept row strictly
-\* precedes every dropped row (or nothing is dropped)
+\* SPARQL applies ORDER BY to the solutions before projection, then projects, then DISTINCT, then LIMIT.
+\* Cut chooses the first n rows; it is definite iff every kept row strictly precedes every dropped row (no tie
+\* crosses the boundary).  With DISTINCT the order of the de-duplicated rows must be observable on the projected
+\* columns, otherwise the cut is not definite.
 Cut(X, q, B) ==
-  LET P == IF q.distinct THEN Distinct(Projected(X, q, B)) ELSE Projected(X, q, B) IN
-  IF q.limit < 0 \/ BagSize(P) <= q.limit THEN [ok |-> TRUE, bag |-> P]
-  ELSE IF q.distinct = FALSE /\ \E m \in DOMAIN P : P[m] > 1 /\ FALSE THEN [ok |-> FALSE, bag |-> P]
-  ELSE \* order keys must be among the projected variables for the cut to be computed on P
-       LET keysProjected == \A i \in 1..Len(q.order) : q.order[i].v \in SelVars(q)
-           kept == {m \in DOMAIN P : SumOver({n \in DOMAIN P : StrictlyBefore(X, q.order, n, m)}, LAMBDA n : P[n]) + P[m] <= q.limit}
-           dropped == (DOMAIN P) \ kept
-           definite == /\ keysProjected
-                       /\ SumOver(kept, LAMBDA m : P[m]) = q.limit
-                       /\ \A a \in kept, b \in dropped : StrictlyBefore(X, q.order, a, b)
-       IN  [ok |-> definite, bag |-> [m \in kept |-> P[m]]]
+  LET P == Projected(X, q, B)
+      keysProjected == \A i \in 1..Len(q.order) : q.order[i].v \in SelVars(q)
+  IN
+  IF q.distinct THEN
+     LET D == Distinct(P) IN
+     IF q.limit < 0 \/ BagSize(D) <= q.limit THEN [ok |-> TRUE, bag |-> D]
+     ELSE LET kept == {m \in DOMAIN D : Cardinality({n \in DOMAIN D : StrictlyBefore(X, q.order, n, m)}) + 1 <= q.limit}
+              dropped == (DOMAIN D) \ kept
+              definite == /\ keysProjected
+                          /\ Cardinality(kept) = q.limit
+                          /\ \A a \in kept, b \in dropped : StrictlyBefore(X, q.order, a, b)
+          IN  [ok |-> definite, bag |-> [m \in kept |-> 1]]
+  ELSE
+     IF q.limit < 0 \/ BagSize(B) <= q.limit THEN [ok |-> TRUE, bag |-> P]
+     ELSE LET kept == {m \in DOMAIN B : SumOver({n \in DOMAIN B : StrictlyBefore(X, q.order, n, m)}, LAMBDA n : B[n]) + B[m] <= q.limit}
+              dropped == (DOMAIN B) \ kept
+              definite == /\ SumOver(kept, LAMBDA m : B[m]) = q.limit
+                          /\ \A a \in kept, b \in dropped : StrictlyBefore(X, q.order, a, b)
+          IN  [ok |-> definite, bag |-> Projected(X, q, [m \in kept |-> B[m]])]
 
 SubSolutions(X, q, view, active) == Cut(X, q, SubFull(X, q, view, active)).bag
 
